@@ -56,7 +56,7 @@ fn start_states(r: usize, depth: usize, updates: Vec<(String, Option<String>, i6
     inner.deletes = !populated;
     inner.c01 = false;
     let c = Collect { inner, states: Mutex::new(vec![]) };
-    let _ = state::explore(&c, &StateCfg { max_depth: depth, deadline: None, max_found: 1, first_depth: depth });
+    let _ = state::explore(&c, &StateCfg { max_depth: depth, deadline: None, max_found: 1, first_depth: depth, tolerate: vec![] });
     let mut v = c.states.into_inner().unwrap();
     v.retain(|(w, _)| w.obs.iter().any(|o| !o.unsynced.is_empty() || (Some(o.base) != w.chain.latest() && !w.chain.versions.is_empty())));
     v.sort_by_key(|(_, t)| t.len());
